@@ -101,7 +101,20 @@ function closeBridges() {
   globalThis.__bridges = [];
 }
 
+// indices from REC_BASE on denote the recorded ssim histories (corpus/regress_ssim.json, explicit runs)
+const REC_BASE = 1e9;
+let RECORDED = null;
+function recorded() {
+  if (RECORDED) return RECORDED;
+  try {
+    RECORDED = JSON.parse(fs.readFileSync(path.join(HOME, "corpus/regress_ssim.json"), "utf8")).map((e) => e.run).filter((r) => r && Array.isArray(r.ops) && r.ops.length && r.project && r.project.files && (process.env.E2E_MODE === "oneshot" ? false : true));
+  } catch {
+    RECORDED = [];
+  }
+  return RECORDED;
+}
 function genRun(index) {
+  if (index >= REC_BASE) return recorded()[index - REC_BASE];
   const out = execFileSync(SIM, ["gen", process.env.E2E_MODE === "oneshot" ? "C10" : "C14", String(index)], { encoding: "utf8", maxBuffer: 1 << 28, env: { ...process.env, VERIF_SEED: String(ROOT) } });
   return JSON.parse(out);
 }
@@ -580,7 +593,9 @@ async function runRange(lo, hi) {
 }
 const W = Math.max(1, Math.min(Number(process.env.VERIF_WORKERS || 8), 8, N));
 const per = Math.ceil(N / W);
-await Promise.all(Array.from({ length: W }, (_, k) => runRange(k * per, Math.min(N, (k + 1) * per))));
+const R = ONESHOT || process.env.E2ELEG_RUNS ? 0 : recorded().length;
+agg.recorded_histories_replayed = R;
+await Promise.all([...Array.from({ length: W }, (_, k) => runRange(k * per, Math.min(N, (k + 1) * per))), ...(R ? [runRange(REC_BASE, REC_BASE + R)] : [])]);
 agg.stalled.sort((a, b) => a - b);
 if (notRunnable) {
   agg.ran = false;
